@@ -233,4 +233,5 @@ class Encoder(object):
         return "'%s'" % val.compressed
 
     def cql_encode_decimal(self, val):
-        return self.cql_encode_float(float(val))
+        # str() of a Decimal is an exact CQL numeric constant; going through float rounds it
+        return str(val)
